@@ -4,6 +4,7 @@ import (
 	"context"
 	"encoding/json"
 	"io"
+	"net"
 	"os"
 	"os/exec"
 	"sync"
@@ -25,7 +26,8 @@ type HostCfg struct {
 	AllowedSet     bool           `json:"allowed_set"` // true: use Allowed even if empty
 	TLS            string         `json:"tls"`         // "", "static", "auto"
 	Mux            bool           `json:"mux"`
-	Launch         string         `json:"launch"` // "cmd" (default), "runner"
+	Launch         string         `json:"launch"`  // "cmd" (default), "runner"
+	Forward        bool           `json:"forward"` // runner launch: publish Unix sockets across as loopback TCP forwards
 	StartTimeoutMs int            `json:"start_timeout_ms"`
 	SkipHostEnv    bool           `json:"skip_host_env"`
 	TempDir        string         `json:"temp_dir"`
@@ -39,10 +41,71 @@ type WrapRunner struct {
 	Starts atomic.Int32
 	Cmd    *exec.Cmd
 	TmpDir string
+
+	Forward bool
+	fwdMu   sync.Mutex
+	fwd     []net.Listener
 }
 
 func (w *WrapRunner) Start(ctx context.Context) error { w.Starts.Add(1); return w.Runner.Start(ctx) }
-func (w *WrapRunner) Kill(ctx context.Context) error  { w.Kills.Add(1); return w.Runner.Kill(ctx) }
+func (w *WrapRunner) Kill(ctx context.Context) error {
+	w.Kills.Add(1)
+	w.fwdMu.Lock()
+	for _, l := range w.fwd {
+		l.Close()
+	}
+	w.fwd = nil
+	w.fwdMu.Unlock()
+	return w.Runner.Kill(ctx)
+}
+
+// With Forward set the runner is one whose plugin lives "elsewhere": every Unix socket of one side
+// is published to the other side as a TCP address on the loopback interface that forwards to it
+// (the address translation a container runner does). Both the network and the address change.
+func (w *WrapRunner) forward(path string) (string, error) {
+	ln, err := net.Listen("tcp", "127.0.0.1:0")
+	if err != nil {
+		return "", err
+	}
+	w.fwdMu.Lock()
+	w.fwd = append(w.fwd, ln)
+	w.fwdMu.Unlock()
+	go func() {
+		for {
+			c, err := ln.Accept()
+			if err != nil {
+				return
+			}
+			go func() {
+				d, err := net.Dial("unix", path)
+				if err != nil {
+					c.Close()
+					return
+				}
+				go func() { io.Copy(d, c); d.Close() }()
+				io.Copy(c, d)
+				c.Close()
+			}()
+		}
+	}()
+	return ln.Addr().String(), nil
+}
+
+func (w *WrapRunner) PluginToHost(network, addr string) (string, string, error) {
+	if !w.Forward || network != "unix" {
+		return w.Runner.PluginToHost(network, addr)
+	}
+	a, err := w.forward(addr)
+	return "tcp", a, err
+}
+
+func (w *WrapRunner) HostToPlugin(network, addr string) (string, string, error) {
+	if !w.Forward || network != "unix" {
+		return w.Runner.HostToPlugin(network, addr)
+	}
+	a, err := w.forward(addr)
+	return "tcp", a, err
+}
 
 // Pair is a configured client plus handles for observation.
 type Pair struct {
@@ -116,7 +179,7 @@ func NewPair(bin string, hc *HostCfg, pc *PluginCfg, extraEnv []string, logger h
 		cfg.UnixSocketConfig = &plugin.UnixSocketConfig{TempDir: hc.TempDir}
 	}
 	if hc.Launch == "runner" {
-		p.Wrap = &WrapRunner{}
+		p.Wrap = &WrapRunner{Forward: hc.Forward}
 		cfg.RunnerFunc = func(l hclog.Logger, c *exec.Cmd, tmpDir string) (runner.Runner, error) {
 			// the template command has an empty path: run our binary with the prepared environment
 			real := exec.Command(bin)
